@@ -289,6 +289,8 @@ def gen_case(ctx, thorough, force=None):
     with_classes = r.random() < 0.4
     if force == "uniform-big-classes":
         kind, big, with_classes, lumped = "uniform", True, True, False
+    if force == "numeric-2d":
+        kind, big, dim, lumped = "dimwise", False, 2, False
     if kind == "uniform":
         if big:
             lv = r.choice([[8], [4, 4], [4, 4], [2, 3, 4], [5, 3], [3, 5], [3, 3, 3]] + ([] if force else [[2, 2, 4]]))
@@ -310,11 +312,14 @@ def gen_case(ctx, thorough, force=None):
         else:
             cap = {1: 14, 2: 8, 3: 5}[dim]
             stripes = [gen_stripe(r, cap, 5) for _ in range(dim)]
+            if force == "numeric-2d":
+                # 2 x 2 .. 3 x 3 interior nodes: every kind of neighbour pair (axis-parallel, diagonal, anti-diagonal) occurs
+                stripes = [gen_stripe(r, 5, 4, lo=4), gen_stripe(r, 5, 4, lo=4)]
     M = r.choice([1, 2, 3, 4, 5, 8, 8, 13, 16, 16, 32]) if force is None else r.choice([8, 13, 16, 32])
     data = gen_data(r, dim, stripes, M, res=r.choice([16, 64, 128]))
     classes = [r.choice([-1, 1]) for _ in range(M)] if with_classes else None
     numeric = (kind == "dimwise" and not big and r.random() < (0.15 if not thorough else 0.2)
-               and math.prod(len(s) - 2 for s in stripes) <= (9 if dim == 1 else 4) and dim <= 2)
+               and math.prod(len(s) - 2 for s in stripes) <= (9 if dim == 1 else 4) and dim <= 2) or force == "numeric-2d"
     return {"kind": kind, "dim": dim, "lv": lv, "stripes": [[frac_str(c) for c in s] for s in stripes],
             "lam": frac_str(lam), "lumped": lumped, "classes": classes, "numeric": numeric,
             "reuse": bool(kind == "dimwise" and not numeric and r.random() < 0.5),
@@ -705,7 +710,7 @@ def _run_case(ck, case):
                 if G is not None:
                     bad = [i for i in range(N) if not (near_entry(R[i], G[i][i] + lam) if not numeric else near(R[i], G[i][i] + lam, tolR, 1e-3))]
                     if bad:
-                        rel = max(abs(float(R[i]) - float(G[i][i] + lam)) / float(G[i][i]) for i in bad)
+                        rel = max(entry_rel(float(R[i]) - float(lam), G[i][i]) for i in bad)
                         ck.viol("numeric-entries-are-gram" if numeric else "lumped-is-gram-diagonal", dict(tags, err=err_class(rel)), case,
                                 {"entry": bad[0], "impl": float(R[bad[0]]), "gram_diag_plus_lambda": str(G[bad[0]][bad[0]] + lam), "max_rel_err": rel})
             else:
@@ -715,7 +720,8 @@ def _run_case(ck, case):
                     Rl = [[F(float(R[i][j])) for j in range(N)] for i in range(N)]
                     bad = [(i, j) for i in range(N) for j in range(N) if not near(Rl[i][j], G[i][j] + (lam if i == j else 0), tolR, 1e-3)]
                     if bad:
-                        rel = max(abs(float(Rl[i][j] - G[i][j] - (lam if i == j else 0))) / float(G[i][i]) for i, j in bad)
+                        rel = max(entry_rel(float(Rl[i][j]) - (float(lam) if i == j else 0.0), G[i][j]) for i, j in bad)
+                        bad.sort(key=lambda ij: -entry_rel(float(Rl[ij[0]][ij[1]]) - (float(lam) if ij[0] == ij[1] else 0.0), G[ij[0]][ij[1]]))
                         i, j = bad[0]
                         ck.viol("numeric-entries-are-gram", dict(tags, err=err_class(rel)), case,
                                 {"entry": [i, j], "impl": float(R[i][j]), "gram_plus_lambda": str(G[i][j] + (lam if i == j else 0)), "max_rel_err": rel})
@@ -744,6 +750,8 @@ def _run_case(ck, case):
                                          "build_R_matrix_dimension_wise(warm old_R, refined grid)", dict(tags, warm_cache=True))
                         ctx.count("matrix_dimwise_reuse_warm_cache")
             ctx.count("matrix_dimwise_%s%s" % ("numeric" if numeric else "analytic", "_lumped" if lumped else ""))
+            if numeric and dim >= 2:
+                ctx.count("matrix_numeric_2d")
         # ---- right-hand side
         b = op.calculate_B_dimension_wise(op.data, fstripes, levels)
         mb = parse_vec(drv.ask("bdw %s %s %s %s" % ("large" if big else "small", st, fvs(data), sg)))
@@ -788,10 +796,18 @@ def _run_case(ck, case):
 
 
 def err_class(rel):
-    """size class of a relative deviation of a matrix entry"""
+    """class of the worst deviation of a numerically integrated matrix entry RELATIVE TO THAT ENTRY (inf for a non-zero value
+    where the Gram entry is 0): the quadrature of the unchanged code (nquad with epsrel = 1) is off by up to ~1e-2 of an entry
+    (measured 9.4e-3); anything beyond 3e-2 of the entry -- in particular a dropped or spurious coupling -- is "entry-wrong" """
     if rel <= 1e-8:
         return "none"
-    return "quadrature-tolerance" if rel <= 2e-2 else "gross"
+    return "quadrature-tolerance" if rel <= 3e-2 else "entry-wrong"
+
+
+def entry_rel(impl, ref):
+    ref = float(ref)
+    d = abs(float(impl) - ref)
+    return d / abs(ref) if ref != 0 else (0.0 if d <= 1e-14 else float("inf"))
 
 
 def combi_case(ctx, drv, thorough):
@@ -892,7 +908,7 @@ def run(ctx):
             case = combi_case(ctx, drv, thorough)
             ok = run_combi(ctx, drv, case)
         else:
-            case = gen_case(ctx, thorough, force="uniform-big-classes" if k % 20 == 3 else None)
+            case = gen_case(ctx, thorough, force="uniform-big-classes" if k % 20 == 3 else ("numeric-2d" if k % 25 == 8 else None))
             ok = run_case(ctx, drv, case)
             if case["kind"] == "uniform" and case["big"] and case["classes"] is not None:
                 ctx.count("uniform_ge_200_with_classes")
